@@ -92,3 +92,39 @@ pub proof fn lemma_bits_of_empty()
         bits_of(Seq::<u8>::empty()) =~= Seq::<bool>::empty(),
 {
 }
+
+pub proof fn lemma_set_bit(c: u8, k: u8, i: u8)
+    requires
+        k < 8,
+        i < 8,
+    ensures
+        bit_of(c | (1u8 << ((7 - k) as u8)), i as int) == (i == k || bit_of(c, i as int)),
+{
+    assert(((c | (1u8 << ((7 - k) as u8))) & (1u8 << ((7 - i) as u8)) != 0) == (i == k || (c & (1u8 << ((7 - i) as u8)) != 0))) by (bit_vector)
+        requires k < 8, i < 8;
+}
+
+pub proof fn lemma_zero_byte(i: int)
+    requires 0 <= i < 8,
+    ensures !bit_of(0u8, i),
+{
+    let s = (7 - i) as u8;
+    assert(0u8 & (1u8 << s) == 0) by (bit_vector);
+}
+
+
+pub proof fn lemma_clear_bit(c: u8, k: u8, i: u8)
+    requires
+        k < 8,
+        i < 8,
+    ensures
+        bit_of(c & !(1u8 << ((7 - k) as u8)), i as int) == (i != k && bit_of(c, i as int)),
+{
+    assert(((c & !(1u8 << ((7 - k) as u8))) & (1u8 << ((7 - i) as u8)) != 0) == (i != k && (c & (1u8 << ((7 - i) as u8)) != 0))) by (bit_vector)
+        requires k < 8, i < 8;
+}
+
+/// bit i of a byte string (MSB-first), as an index into bits_of
+pub open spec fn gbit(data: Seq<u8>, i: int) -> bool {
+    bit_of(data[i / 8], i % 8)
+}
